@@ -29,9 +29,10 @@ from . import common
 from . import c07_app as app
 from . import c07_gen as gen
 from . import c07_cov as covmod
+from . import c07_tok as tok
 
 PROPERTY = 'C07'
-LEAN_TARGETS = ['CpProofs.C07', 'drv_c07']
+LEAN_TARGETS = ['CpProofs.C07', 'CpProofs.C07Tok', 'drv_c07']
 DRIVER = 'drv_c07'
 THEOREMS = [
     'CpProofs.C07.allSites_complete',
@@ -56,46 +57,98 @@ THEOREMS = [
     'CpProofs.C07.C07_qvalue_gzip_partial',
     'CpProofs.C07.C07_maxAge',
     'CpProofs.C07.C07_bodyFraming',
+    # round 2 (CpProofs/C07Tok.lean): header tokenising, digest outcome classes, response header encoding
+    'CpProofs.C07.headerElements_ok_or_400',
+    'CpProofs.C07.headerElements_nonAccept_total',
+    'CpProofs.C07.headerElements_400_iff',
+    'CpProofs.C07.headerElements_empty',
+    'CpProofs.C07.C07_headerElements',
+    'CpProofs.C07.C07_headerElements_full_false',
+    'CpProofs.C07.acceptQvalue_ok_or_400',
+    'CpProofs.C07.digestInit_raises_only_ValueError',
+    'CpProofs.C07.digestAuth_status_cases',
+    'CpProofs.C07.C07_digest_full_false',
+    'CpProofs.C07.C07_digest_partial',
+    'CpProofs.C07.C07_digest_partial_lt',
+    'CpProofs.C07.respEncode_agrees_table',
+    'CpProofs.C07.respEncodeTable_covers',
+    'CpProofs.C07.C07_respEncode_total',
+    'CpProofs.C07.C07_respEncode_no_ctl',
+    'CpProofs.C07.C07_dispatch_full_false',
+    'CpProofs.C07.C07_dispatch_partial',
+    'CpProofs.C07.C07_dispatch_full_fixed',
+    'CpProofs.C07.C07_dispatch_live',
+    'CpProofs.C07.C07_dispatch_partial_status',
+    'CpProofs.C07.trailerFinish_fixed_ok_or_400',
+    'CpProofs.C07.trailerFinish_raises',
+    'CpProofs.C07.C07_trailers_full_false',
+    'CpProofs.C07.C07_trailers_fixed',
+    'CpProofs.C07.C07_trailers_live',
 ]
 LEVEL = 'proof'
-TECHNIQUE = ('Lean 4 catch-map proof: CherryPy parsers as total functions to Except (exception class | HTTP status), '
-             'the try/except structure around every parse site transcribed and proved equal (decide) to a table '
-             're-measured from the live code by fault injection on every run; stdlib parsers as measured contracts; '
-             'grammar-based request fuzzing with a status-class oracle')
+TECHNIQUE = ('Lean 4 catch-map proof: CherryPy parsers (ranges, query string, url-encoded / multipart bodies, filename*, '
+             'q-values, header tokenising, Digest header checks, handler-call argument matching, response header encoding) as '
+             'total functions to Except (exception class | HTTP status), the try/except structure around every parse site '
+             'transcribed and proved equal (decide) to a table re-measured from the live code by fault injection on every run; '
+             'stdlib parsers as measured contracts; grammar-based request fuzzing incl. multi-step handshakes with a '
+             'status-class oracle')
 LEVEL_TEXT = ('Proved for all inputs of the modelled parsers (Range, query string, url-encoded body, multipart framing, '
-              'filename*, q-values, max-age, body framing 411): the status produced by the parser outcome through the '
-              'catch map is < 500; proved for the whole catch map: every (site, exception class in the site\'s contract) '
-              'ends < 500 or is one of the listed known-uncaught pairs, and the transcribed handlers equal the table '
-              'measured from the live code for every class of the universe. Partial: stdlib parsers (RFC 2047, cookies, '
-              'JSON, base64, urllib) are contracts measured by fuzzing, not proved; header-value tokenising, dispatch and '
-              'the tools outside the listed sites are covered by the request fuzz only; four known 5xx classes are proved '
-              'present (negation theorems) rather than absent.')
-LEVEL_NOTE = ('Trusted: Lean kernel; hand models of the parsers as validated by the unit/site differential stream; the '
-              'fault-injection table generator; stdlib contracts as measured on this run; domain = code points <= U+00FF '
-              'in request line and headers (what HTTP/1.x can carry), lines < 64 KiB and exact or short Content-Length in '
-              'the multipart model.')
+              'filename*, q-values, max-age, body framing 411, header-value tokenising parse_header / header_elements, the '
+              'checks of the Digest Authorization header and the decision sequence of digest_auth, the argument matching of '
+              'the page handler call, the encoding of response header values for HTTP/1.0 and 1.1): the status produced by the '
+              'parser outcome through the catch map is < 500; proved for the whole catch map (20 sites x 23 classes): every '
+              '(site, exception class in the site\'s contract) ends < 500 or is one of the listed known-uncaught pairs, and the '
+              'transcribed handlers equal the table measured from the live code for every class of the universe, also when the '
+              'probes are sent as HTTP/1.0 or HEAD. Partial: stdlib parsers (RFC 2047, cookies, JSON, base64, urllib, the '
+              'Digest tokenizer) are contracts measured by fuzzing, not proved; sessions, static If-*, caching and the tools '
+              'outside the listed sites are covered by the request fuzz only (multi-step cases with genuine nonces, session '
+              'ids, validators and cached entries; reflecting resources x protocol x method x text beyond U+00FF); seven known '
+              '5xx classes are proved present (negation theorems with witnesses) rather than absent.')
+LEVEL_NOTE = ('Trusted: Lean kernel; hand models of the parsers as validated by the unit/site differential streams on every '
+              'run; the fault-injection table generator; stdlib contracts as measured on this run; domain of the text models = '
+              'code points <= U+00FF in request line and headers (what HTTP/1.x can carry; RFC 2047-decoded text beyond that is '
+              'driven through the oracle only), ASCII algorithm names in the digest model, lines < 64 KiB and exact or short '
+              'Content-Length in the multipart model, page handlers without keyword-only parameters in the call model.')
 TRUSTED_BASE = [
     'stdlib parsers (email.header.decode_header, http.cookies, json, base64, urllib.parse, urllib.request.parse_keqv_list, '
     'codecs) enter as contracts = sets of exception classes, re-measured by fuzzing on every run, not proved',
     'fault injection replaces module globals naming the callee / registers a private codec; the code under test is unmodified',
+    'the digest flow comparison feeds the model with an independent RFC 2617 re-computation (harness/c07_tok.py) of whether '
+    'nonce, user, digest and age are right',
+    'CpModel.HeaderEnc (C12) and its generated tables for the bytes HeaderMap.encode_header_item emits',
 ]
 ASSUMPTIONS = [
     'page handlers and enabled tools are total (the harness handlers are)',
     'the environ is what a conforming HTTP/1.x server derives: method token, path/query/header values of code points '
     '<= U+00FF without CR/LF, arbitrary body bytes, SERVER_PROTOCOL HTTP/1.0 or HTTP/1.1',
 ]
-RULE = ('requests = target resource (22 kinds) x per-element grammars (query, 30+ header grammars, url-encoded / multipart / '
-        'JSON bodies, framing) with 0-2 systematic mutations each (truncate, duplicate, wrong/dropped separator, bad number, '
-        'quotes, oversize, unknown charset, control bytes, RFC 2047 words); non-trivial = the request carries at least one '
-        'mutated or non-default element (everything except bare GETs); distinct = distinct (target, method, path, query, '
-        'headers, body) tuple; unit streams for the modelled parsers are counted the same way')
+RULE = ('requests = target resource (33 kinds, each also with every tool\'s debug switch on) x per-element grammars (query, 30+ '
+        'header grammars, url-encoded / multipart / JSON bodies, framing) with 0-2 systematic mutations each (truncate, '
+        'duplicate, wrong/dropped separator, bad number, quotes, oversize, unknown charset, control bytes, RFC 2047 words, one '
+        'token through 27 byte classes) x HTTP/1.0|1.1 x method; systematic cross streams: second step of the digest handshake '
+        '(genuine nonce, known user) with every parameter x byte class x quoting style, presented session ids, cached entries, '
+        'conditional headers against genuine validators, reflecting resources x protocol x method x 16 sources of text beyond '
+        'U+00FF, RFC 2047 words in each of 29 consumed headers, fixed-signature handlers x path atoms x parameter sets; '
+        'non-trivial = the request carries at least one mutated or non-default element or an earlier step (everything except '
+        'bare GETs); distinct = distinct (target, method, path, query, protocol, headers, body, earlier steps, digest spec) '
+        'tuple; unit streams for the modelled parsers / tokenizers / call matching are counted the same way')
 
 # ----------------------------------------------------------------------------------------------
 # universe of exception classes and parse sites (names = Lean constructors in CpModel/ParseTypes.lean)
 # ----------------------------------------------------------------------------------------------
 
 
+try:
+    from cheroot.errors import MaxSizeExceeded as _MaxSizeExceeded
+except ImportError:           # the class CherryPy recognises by name
+    class _MaxSizeExceeded(Exception):
+        pass
+    _MaxSizeExceeded.__name__ = 'MaxSizeExceeded'
+
+
 def _mk(cls):
+    if cls is _MaxSizeExceeded:
+        return _MaxSizeExceeded('injected', 100)
     if cls is UnicodeDecodeError:
         return UnicodeDecodeError('utf-8', b'\xff', 0, 1, 'injected')
     if cls is UnicodeEncodeError:
@@ -113,7 +166,7 @@ UNIVERSE = [
     ('RecursionError', RecursionError), ('BinasciiError', binascii.Error), ('MessageError', email.errors.MessageError),
     ('HeaderParseError', email.errors.HeaderParseError), ('CookieError', http.cookies.CookieError),
     ('OverflowError', OverflowError), ('JSONDecodeError', json.JSONDecodeError), ('OSError', OSError),
-    ('AssertionError', AssertionError),
+    ('AssertionError', AssertionError), ('MaxSizeExceeded', _MaxSizeExceeded),
 ]
 NAME_OF = {c: n for n, c in UNIVERSE}
 HTTP400 = 'HTTP400'     # pseudo class: the callee raises cherrypy.HTTPError(400) itself
@@ -129,6 +182,13 @@ def _raise_injected(*a, **k):
     raise _mk(dict(UNIVERSE)[e])
 
 
+def _rfile_hook():
+    """read()/readline() of the injecting wsgi.input: nothing arrives, or the injected class is raised."""
+    if _inject['exc'] is None:
+        return b''
+    _raise_injected()
+
+
 def _codec_search(name):
     if name != 'c07raise':
         return None
@@ -139,6 +199,8 @@ def _codec_search(name):
         _raise_injected()
 
     def enc(data, errors='strict'):
+        if _inject['exc'] is None:
+            return codecs.latin_1_encode(data, errors)
         _raise_injected()
     return codecs.CodecInfo(enc, dec, name='c07raise')
 
@@ -214,8 +276,22 @@ def sites():
     class _B64(object):
         b64decode = staticmethod(_raise_injected)
 
+    def urllib_shim(fn):
+        """A stand-in for the `urllib` global of a module: urllib.parse with `fn` replaced by the injecting stub."""
+        import types
+        import urllib.parse as real
+        parse = types.SimpleNamespace(**{k: getattr(real, k) for k in dir(real) if not k.startswith('__')})
+        setattr(parse, fn, _raise_injected)
+        return types.SimpleNamespace(parse=parse)
+    from cherrypy import _cperror
+    from cherrypy.lib import cptools
+
     form = 'application/x-www-form-urlencoded'
     return {
+        'rfileRead': (_NoPatch, dict(_req('POST', '/form', [['Content-Type', form]], 'a=1'), rfile='inject', _hook=_rfile_hook)),
+        'encodeCharset': (_NoPatch, _req('GET', '/enc', [['Accept-Charset', 'c07raise']])),
+        'proxyNetloc': (lambda: _Patch(cptools, 'urllib', urllib_shim('urlparse')), _req('GET', '/proxy')),
+        'redirectNetloc': (lambda: _Patch(_cperror, 'urllib', urllib_shim('urljoin')), _req('GET', '/sub')),
         'decodeHeader': (lambda: _Patch(httputil, 'decode_header', _raise_injected),
                          _req('GET', '/plain', [['X-A', '=?utf-8?q?a?=']])),
         'decodeTextCharset': (_NoPatch, _req('GET', '/plain', [['X-A', '=?c07raise?q?a?=']])),
@@ -251,7 +327,7 @@ def sites():
 
 SITE_ORDER = ['decodeHeader', 'decodeTextCharset', 'cookieLoad', 'qsUnquote', 'imageMapInt', 'getRanges', 'qvalueAccept',
               'qvalueGzip', 'contentLengthInt', 'urlencDecode', 'partDecode', 'partHeaders', 'partBody', 'filenameStar',
-              'jsonDecode', 'basicB64', 'digestKeqv']
+              'jsonDecode', 'basicB64', 'digestKeqv', 'encodeCharset', 'proxyNetloc', 'redirectNetloc', 'rfileRead']
 
 # stdlib contracts: which classes the callee at the site can raise on client data (hand-stated in
 # CpModel/ParseSites.lean `contract`; this copy is checked against the driver and re-measured by fuzzing)
@@ -273,7 +349,14 @@ CONTRACT = {
     'jsonDecode': ['JSONDecodeError', 'UnicodeDecodeError', 'ValueError', 'RecursionError'],
     'basicB64': ['BinasciiError', 'UnicodeEncodeError', 'ValueError'],
     'digestKeqv': ['IndexError', 'ValueError'],
+    'encodeCharset': ['LookupError', 'UnicodeEncodeError', 'UnicodeError', 'ValueError'],
+    'proxyNetloc': ['ValueError'],
+    'redirectNetloc': ['ValueError'],
+    'rfileRead': ['ValueError', 'OSError', 'OverflowError', 'MaxSizeExceeded'],
 }
+
+
+BASE_STATUS = {}     # site -> status of the un-injected probe of the last measurement
 
 
 def measure_catch_table(proto='HTTP/1.1', head=False):
@@ -283,13 +366,16 @@ def measure_catch_table(proto='HTTP/1.1', head=False):
     _ensure_codec()
     table = {}
     ss = sites()
+    BASE_STATUS.clear()
     for s in SITE_ORDER:
         mk_patch, req = ss[s]
         req = dict(req, proto=proto)
         if head and req['method'] == 'GET':
             req['method'] = 'HEAD'
         base = app.call(req)
-        if base['status'] not in (200, 206) and not (s == 'digestKeqv' and base['status'] == 401):
+        BASE_STATUS[s] = base['status']
+        if base['status'] not in (200, 206) and not (s == 'digestKeqv' and base['status'] == 401) \
+                and not (s == 'redirectNetloc' and base['status'] == 301):
             # the un-injected probe is not answered normally on this tree: record what it does (the table then
             # differs from the transcription and the request stream decides whether the property is broken)
             for name, _cls in UNIVERSE + [(HTTP400, None)]:
@@ -315,6 +401,74 @@ def live_hierarchy():
     return out
 
 
+RESP_CLASSES = ['empty', 'ascii', 'latin1', 'wide', 'astral', 'control', 'mixed']
+RESP_SAMPLES = {'empty': [''], 'ascii': ['abc', 'a b;c="d"'], 'latin1': ['h\xe9', '\xff\xa0'], 'wide': ['\u20ac', '\u043a\u043b'],
+                'astral': ['\U0001f600', 'a\U0001f600\u20ac'], 'control': ['a\r\nb', '\x00', '\x7f\u20ac'],
+                'mixed': ['a\xe9\u20ac', '\u20ac.example']}
+
+
+def resp_encode_real(p11, value):
+    """`HeaderMap.output()` for one value, on a map prepared the way Request.run prepares response.headers.
+    Returns ('ok', bytes) | ('err', class name)."""
+    from cherrypy.lib import httputil
+    try:
+        h = httputil.HeaderMap()
+        h.protocol = (1, 1) if p11 else (1, 0)
+        h['X-V'] = value
+        out = h.output()
+        v = dict(out).get(b'X-V')
+        if not isinstance(v, bytes):
+            return ('err', 'not-bytes')
+        return ('ok', v)
+    except Exception as e:
+        return ('err', _cls_name(e))
+
+
+def measure_resp_encode():
+    out = {}
+    for p11 in (True, False):
+        for cls in RESP_CLASSES:
+            out[(p11, cls)] = all(resp_encode_real(p11, v)[0] == 'ok' for v in RESP_SAMPLES[cls])
+    return out
+
+
+def measure_repair_flags():
+    """Which of the proposed repairs the code under test contains (the models follow the code either way)."""
+    import types
+    import cherrypy
+    flags = {'boundArgClassified': False, 'trailerErrorsAre400': False}
+    from . import c07_tok
+    try:
+        flags['trailerErrorsAre400'] = c07_tok.real_trailers([b'nocolon\r\n']) == 'http:400'
+    except Exception:           # noqa
+        pass
+    saved = cherrypy.serving.request
+    try:
+        from cherrypy import _cpdispatch
+        cherrypy.serving.request = types.SimpleNamespace(body=types.SimpleNamespace(params={}), show_mismatched_params=False)
+
+        class _H(object):
+            def h(self, **kw):
+                return b''
+        try:
+            _cpdispatch.test_callable_spec(_H().h, [], {'self': '1'})
+        except cherrypy.HTTPError as e:
+            flags['boundArgClassified'] = e.status in (400, 404)
+        except Exception:       # noqa: anything else is not the repair
+            pass
+    except Exception:           # noqa
+        pass
+    finally:
+        cherrypy.serving.request = saved
+    return flags
+
+
+def _lean_text(s):
+    if all(32 <= ord(c) < 127 and c not in '"\\' for c in s):
+        return '"%s".toList' % s
+    return '[%s]' % ', '.join('Char.ofNat %d' % ord(c) for c in s)
+
+
 def tables(ctx):
     tab = measure_catch_table()
     hier = live_hierarchy()
@@ -334,7 +488,39 @@ def tables(ctx):
     L.append(',\n'.join('  (.%s, [%s])' % (n, ', '.join('.' + b for b in hier[n])) for n, _ in UNIVERSE))
     L.append(']')
     L.append('')
+    try:
+        from cherrypy.lib import auth_digest
+        algs = [str(a).upper() for a in auth_digest.valid_algorithms]
+        qops = [str(q) for q in auth_digest.valid_qops]
+    except Exception as e:      # noqa: the tables then differ from what the theorems were proved over
+        algs, qops = [], []
+        ctx.extra['digest_tables_unavailable'] = repr(e)
+    L.append('/-- `[alg.upper() for alg in auth_digest.valid_algorithms]` -/')
+    L.append('def digestAlgsUpper : List (List Char) := [%s]' % ', '.join(_lean_text(a) for a in algs))
+    L.append('')
+    L.append('/-- `auth_digest.valid_qops` -/')
+    L.append('def digestQops : List (List Char) := [%s]' % ', '.join(_lean_text(q) for q in qops))
+    L.append('')
+    L.append('/-- does `HeaderMap.output()` succeed for one `str` value of the class, on a header map whose `protocol`')
+    L.append('    attribute was set the way `Request.run` sets it for an HTTP/1.1 (`true`) or HTTP/1.0 (`false`) request -/')
+    L.append('def respEncodeTable : List (Bool × RespCls × Bool) := [')
+    enc = measure_resp_encode()
+    L.append(',\n'.join('  (%s, .%s, %s)' % ('true' if p11 else 'false', cls, 'true' if ok else 'false')
+                        for (p11, cls), ok in sorted(enc.items(), key=lambda kv: (not kv[0][0], RESP_CLASSES.index(kv[0][1])))))
+    L.append(']')
+    L.append('')
+    flags = measure_repair_flags()
+    L.append('/-- does `test_callable_spec` classify a request parameter named like the bound first parameter of the page')
+    L.append('    handler (404 / 400)?  (`false`: the call\'s TypeError is re-raised, finding K6) -/')
+    L.append('def boundArgClassified : Bool := %s' % ('true' if flags['boundArgClassified'] else 'false'))
+    L.append('')
+    L.append('/-- does `SizedReader.finish` answer 400 to a malformed trailer line?  (`false`: ValueError / UnboundLocalError')
+    L.append('    escape, findings K10 / K11) -/')
+    L.append('def trailerErrorsAre400 : Bool := %s' % ('true' if flags['trailerErrorsAre400'] else 'false'))
+    L.append('')
     L.append('end CpModel.Gen.C07')
+    ctx.extra['repair_flags'] = flags
+    ctx.extra['resp_encode_table'] = {'%s:%s' % ('1.1' if k[0] else '1.0', k[1]): v for k, v in enc.items()}
     ctx.extra['catch_table_rows'] = len(rows)
     ctx.extra['catch_table_5xx'] = sorted('%s:%s' % k for k, v in tab.items() if v >= 500 and k[1] in CONTRACT[k[0]] + [HTTP400])
     return {'CpModel/Gen/C07Tables.lean': '\n'.join(L) + '\n'}
@@ -348,6 +534,18 @@ def _cls_name(e):
         if c in NAME_OF:
             return NAME_OF[c]
     return type(e).__name__
+
+
+def _drain(fp):
+    """Read a server reader object to its end the way SizedReader does (it only ever calls read() and
+    read_trailer_lines(); cheroot 11's ChunkedRFile.readline() does not terminate once its buffer holds a LF)."""
+    n = 0
+    while fp.read(8192):
+        n += 1
+        if n > 100000:
+            raise common.HarnessError('reader object never reaches its end')
+    if hasattr(fp, 'read_trailer_lines'):
+        list(fp.read_trailer_lines())
 
 
 def fuzz_contracts(ctx, n):
@@ -389,6 +587,10 @@ def fuzz_contracts(ctx, n):
         attempt('basicB64', lambda: base64.b64decode(b.encode('ascii')))
         d = gen.sanitize(gen.mutated(rng, gen.gen_digest(rng, 'GET', '/digest', 'realm', 'k', 1700000000), 0.6))
         attempt('digestKeqv', lambda: parse_keqv_list(parse_http_list(d.partition(' ')[2])))
+        if i % 4 == 0:
+            cc = gen.chunked_cases(rng, 1)[0]
+            if cc.get('rfile') == 'chunked':
+                attempt('rfileRead', lambda: _drain(app.make_input(cc, cc['body'].encode('latin-1'), cc['headers'])))
     for site, got in seen.items():
         ctx.count('contract:%s:%s' % (site, '+'.join(sorted(got)) or 'none'))
         extra = got - set(CONTRACT[site])
@@ -448,9 +650,14 @@ def describe_sent(c, obs):
     return ' '.join(parts)
 
 
+DIGEST_FLOW = tok.DigestFlow()
+
+
 def check_request(ctx, c, obs=None):
     obs = obs or run_request(c)
     ctx.case(c, nontrivial=nontrivial(c), key=case_key(c))
+    if c.get('digest') is not None or c['target'] == 'digest':
+        DIGEST_FLOW.observe(c, obs)
     ctx.count('target:' + c['target'].split(':')[0])
     ctx.count('status:%s' % obs['status'])
     ctx.count('proto:%s:%s' % (c.get('proto'), c['method'] if c['method'] in ('GET', 'HEAD', 'POST') else 'other'))
@@ -527,6 +734,7 @@ def cross_cases(rng, quick):
     cs += gen.cache_cases(rng, 250 if quick else 4000)
     cs += gen.reflect_cases(rng, 2 if quick else 36)
     cs += gen.dispatch_cases(rng, 400 if quick else 6000)
+    cs += gen.chunked_cases(rng, 500 if quick else 8000)
     return gen.debug_twins(rng, cs)
 
 
@@ -537,7 +745,8 @@ def _cross_worker(cases):
         for c in cases:
             obs = run_request(c)
             out.append({'status': obs['status'], 'exc': obs['exc'], 'escaped': obs['escaped'],
-                        'malformed': obs.get('malformed'), 'sent': obs.get('sent') if obs['status'] >= 500 else None,
+                        'malformed': obs.get('malformed'),
+                        'sent': obs.get('sent') if (obs['status'] >= 500 or c.get('digest') is not None) else None,
                         'pre_status': obs.get('pre_status')})
     finally:
         app.teardown()
@@ -771,7 +980,7 @@ def check_contract_copy(ctx):
             # a probe that does not reach its site under this protocol / method (Range is not looked at for
             # HTTP/1.0) answers the same whatever is injected: nothing to compare there
             for site in SITE_ORDER:
-                if len(set(v for k, v in tab.items() if k[0] == site)) == 1:
+                if set(v for k, v in tab.items() if k[0] == site) == {BASE_STATUS.get(site)}:
                     ctx.count('catch:%s:site-not-reached:%s' % (proto + ('+HEAD' if head else ''), site))
                     tab = {k: v for k, v in tab.items() if k[0] != site}
         keys = sorted(tab)
@@ -796,6 +1005,8 @@ def corpus_cases():
 
 
 def run_case(ctx, case):
+    if 'tok' in case or 'dinit' in case or 'respenc' in case or 'trailers' in case or 'bind' in case:
+        return tok.replay_case(ctx, case)
     if 'unit' in case:
         desc = tuple(case['unit'])
         cases = [(case.get('line') or unit_line(desc), desc)]
@@ -811,7 +1022,12 @@ def run_case(ctx, case):
                 ctx.disagree(case, real, lines[0], 'parser %s: outcome differs' % desc[0])
         return real, (lines[0] if lines else None)
     obs = check_request(ctx, case)
-    return obs, None
+    model = None
+    if case.get('line', '').startswith('dflow') and DIGEST_FLOW.items:
+        out = ctx.model([DIGEST_FLOW.items[-1][2]])
+        model = 'status %s' % out[0] if out else None
+        DIGEST_FLOW.flush(ctx)
+    return obs, model
 
 
 def unit_line(desc):
@@ -850,8 +1066,15 @@ def run(ctx):
         check_contract_copy(ctx)
         fuzz_contracts(ctx, ctx.budget(1500, 40000))
         unit_stream(ctx, ctx.budget(3500, 120000))
+        tok.tok_stream(ctx, ctx.budget(3000, 90000))
+        tok.dinit_stream(ctx, ctx.budget(400, 8000))
+        tok.respenc_stream(ctx, ctx.budget(400, 8000))
+        tok.bind_stream(ctx, ctx.budget(1500, 40000))
+        tok.trailer_stream(ctx, ctx.budget(400, 10000))
+        tok.dispatch_e2e(ctx, ctx.budget(500, 10000))
         cross_stream(ctx)
         request_stream(ctx, ctx.budget(6000, 400000))
+        DIGEST_FLOW.flush(ctx)
     finally:
         covmod.stop()
         app.teardown()
@@ -868,13 +1091,18 @@ def search(ctx, around=None):
         if isinstance(around, dict) and around.get('unit'):
             target = {'ranges': 'file', 'qs': 'plain', 'urlenc': 'form', 'multipart': 'upload', 'fstar': 'plain',
                       'qvalue': 'neg', 'maxage': 'cache'}.get(around['unit'][0])
-        for i in range(40000):
-            c = gen.gen_case(ctx.rng, target=target if (target and i % 2) else None, digest_ctx=dctx)
+        # the systematic cross streams first (other random choices than in run()), then the random stream
+        for c in cross_cases(ctx.rng, True):
             check_request(ctx, c)
             if len(ctx.oracle_failures) >= 3:
                 break
+        for i in range(ctx.budget(14000, 150000)):
+            if len(ctx.oracle_failures) >= 3:
+                break
+            c = gen.gen_case(ctx.rng, target=target if (target and i % 2) else None, digest_ctx=dctx)
+            check_request(ctx, c)
         if not ctx.oracle_failures:
-            for line, desc in unit_cases(ctx, 30000):
+            for line, desc in unit_cases(ctx, ctx.budget(10000, 100000)):
                 _real, obs = real_unit(desc)
                 if obs is not None and obs['status'] >= 500:
                     sig = app.signature(obs)
